@@ -125,7 +125,7 @@ def run_shard(desc, acc, tier):
     if kind == "M":
         for idx in range(lo, hi):
             M, bds = mspace.case_at(name, idx)
-            check(mspace.polyhedron(M, bds), acc, {"kind": "M", "space": name, "idx": idx})
+            check(mspace.polyhedron(M, bds, idx % 3), acc, {"kind": "M", "space": name, "idx": idx})
             if idx % 4 == 0:
                 # the same matrix over a box with EQUAL HASH SUMS ((lo+1, hi-1) for every wide enough column) right afterwards: anything
                 # remembered under a key derived from hash(variable) is wrong for the twin
@@ -243,7 +243,9 @@ def replay(case, acc):
         if case.get("twin"):
             check(mspace.polyhedron(M, bds), acc, dict(case, twin=False))
             bds = [(lo_ + 1, hi_ - 1) if hi_ - lo_ >= 2 else (lo_, hi_) for (lo_, hi_) in bds]
-        check(mspace.polyhedron(M, bds), acc, case)
+            check(mspace.polyhedron(M, bds), acc, case)
+            return
+        check(mspace.polyhedron(M, bds, case["idx"] % 3), acc, case)
     else:
         obj, _ = bind(tuplify(case["ast"]))
         check(obj.to_ge_polyhedron(active=True), acc, case)
